@@ -256,10 +256,15 @@ def decl_sources(style: str, u: str) -> dict[str, tuple[str, list[tuple[str, str
     structured = style != "PLAINTEXT"
     rname = "rr" if style == "NUMPYDOC" else "result_1"
     out["F1"] = (
-        f"def fa{u}(a: int, b: str) -> int:\n" + d(t("F1S") + ".", ml(t("F1D")), 4, params=[("a", "int", t("F1a")), ("b", "str", ml(t("F1b")))], results=[("rr", "int", t("F1r"))], example=f">>> fa{u}(1, 'x')  # {t('F1e')}\n1") + "    return a\n",
+        f"def fa{u}(a: int, b: str) -> int:\n" + d(t("F1S") + ".", ml(t("F1D")), 4, params=[("a", "int", t("F1a")), ("b", "str", ml(t("F1b")))], results=[("rr", "int", t("F1r"))], example=f">>> fa{u}(1,  # {t('F1e')}\n...     str([{t('F1g')}...x]))\n1") + "    return a\n",
         [(t("F1S"), f"fa{u}", "description", None), (t("F1D"), f"fa{u}", "description", None)]
         + ([(t("F1a"), f"fa{u}", "param", "a"), (t("F1b"), f"fa{u}", "param", "b"), (t("F1r"), f"fa{u}", "result", rname)] if structured else [(t("F1a"), f"fa{u}", "description", None), (t("F1r"), f"fa{u}", "description", None)])
-        + ([(t("F1e"), f"fa{u}", "example", None)] if style in ("NUMPYDOC", "GOOGLE") else []),
+        + ([(t("F1e"), f"fa{u}", "example", None), (t("F1g") + "...x", f"fa{u}", "example", None)] if style in ("NUMPYDOC", "GOOGLE") else []),
+    )
+    # a string statement that is NOT the first statement of the body is no documentation
+    out["F3"] = (
+        f"def fc{u}(a: int) -> int:\n" + d(t("F3S") + ".", t("F3D"), 4) + f"    x = a\n    \"\"\"{t('F3X')} stray string.\"\"\"\n    return x\n",
+        [(t("F3S"), f"fc{u}", "description", None), (t("F3D"), f"fc{u}", "description", None), (t("F3X"), None, "absent", None)],
     )
     out["F2"] = (
         f"def fb{u}(a: int) -> int:\n" + d(t("F2S") + ".", t("F2D"), 4, params=[("a", "int", t("F2a"))]) + "    return a\n",
@@ -304,8 +309,8 @@ def part_b(rep: Report, tier: str) -> None:
     units = []  # (label, style, module name, source, expectations, module token)
     uid = itertools.count(1)
     for style in ["PLAINTEXT", *STRUCT]:
-        names = ["F1", "F2", "K1", "K2"]
-        perms = list(itertools.permutations(names)) if tier == "thorough" else [p for i, p in enumerate(itertools.permutations(names)) if i % 3 == 0] + [tuple(names)]
+        names = ["F1", "F2", "F3", "K1", "K2"]
+        perms = list(itertools.permutations(names)) if tier == "thorough" else [p for i, p in enumerate(itertools.permutations(names)) if i % 11 == 0] + [tuple(names)]
         for perm in perms:
             u = f"{next(uid):05d}"
             ds = decl_sources(style, u)
@@ -379,6 +384,12 @@ def part_b(rep: Report, tier: str) -> None:
                 if any(tok in ln for ln in modblk.description):
                     occ.append(("<module>", "description", None))
                 kind = "".join(c for c in tok[2 + 5 :] if not c.isdigit()) or "?"
+                if block == "absent":
+                    if occ:
+                        viol("stray-string-is-no-documentation", kind, {"token": tok, "observed": occ})
+                    else:
+                        rep.ok("stray-string-is-no-documentation")
+                    continue
                 if not occ:
                     viol("token-present", f"{block}:{kind}", {"token": tok, "expected_owner": owner})
                     continue
